@@ -76,6 +76,9 @@ class Gen:
         return self.rng.choice(U.DISPATCH_KEYS)
 
     def const(self):
+        if self.rng.random() < 0.08:
+            # a constant that is immutable only on the surface: a tuple holding mutable members
+            return {"k": "const", "v": copy.deepcopy(self.rng.choice([[[1, 2], "x"], [{"n": [0]}, 1], [[], [[1]]]])), "as": "tuple"}
         return {"k": "const", "v": copy.deepcopy(self.rng.choice(U.VALUES))}
 
     def preset(self, templated=False):
